@@ -662,6 +662,11 @@ class StrategyBase(Node):
         """
         all_kwargs = self.parent._setup_kwargs.copy()
         all_kwargs.update(kwargs)
+        # a strategy created while the tree is running joins it after the
+        # commission function was pushed down from the top: take the parent's
+        # (unless this strategy has been given one of its own)
+        if self.commission_fn == self._dflt_comm_fn:
+            self.set_commissions(self.parent.commission_fn)
         self.setup(self.parent._original_data, **all_kwargs)
         if self.name not in self.parent._universe:
             self.parent._universe[self.name] = np.nan
